@@ -42,7 +42,7 @@ def main():
         sys.exit(2)
     tree = REPO
     if not a.in_place:
-        tree = "/tmp/lccverif-seeded-wt"
+        tree = "/tmp/lccverif-seeded-wt-%d" % os.getpid()
         sh(f"git -C {REPO} worktree remove --force {tree}")
         r = sh(f"git -C {REPO} worktree add --detach {tree} HEAD")
         if r.returncode != 0:
@@ -51,12 +51,19 @@ def main():
     env = dict(os.environ)
     if not a.in_place:
         env["LCC_REPO"] = tree
+    out = "/tmp/lccverif-seeded-out-%d" % os.getpid()
+    os.makedirs(out + "/evidence", exist_ok=True)
+    env["LCC_VERIF_OUT"] = out
     try:
         run_all(a, names, seeded, cmds, results, tree, env)
     finally:
         if not a.in_place:
             sh(f"git -C {REPO} worktree remove --force {tree}")
-    json.dump(results, open(res_path, "w"), indent=1, sort_keys=True)
+        sh(f"rm -rf {out}")
+    # merge into the file as it is now (another invocation may have written meanwhile)
+    cur = json.load(open(res_path)) if os.path.exists(res_path) else {}
+    cur.update({k: v for k, v in results.items() if k in names})
+    json.dump(cur, open(res_path, "w"), indent=1, sort_keys=True)
 
 
 def run_all(a, names, seeded, cmds, results, tree, env):
@@ -78,9 +85,18 @@ def run_all(a, names, seeded, cmds, results, tree, env):
             r = sh(cmd, cwd=ROOT, timeout=3600, env=env)
             lines = [l for l in r.stdout.splitlines() if l.startswith("VIOLATION")]
             caught = r.returncode == 1 and bool(lines)
+            how = []
+            for l in lines[:5]:
+                try:
+                    rp = [w for w in l.split() if w.startswith("replay=")][0][len("replay="):]
+                    rp = os.path.normpath(os.path.join(ROOT, rp))
+                    rep = json.load(open(rp))
+                    how.append("%s: %s [%s]" % (rep.get("kind"), (rep.get("failure") or {}).get("signature") or rep.get("what", ""), rep.get("stream", "")))
+                except Exception as e:      # the replay file is only read for the record
+                    how.append("?")
             results[name] = {
                 "property": pid, "tier": a.tier, "exit": r.returncode, "caught": caught,
-                "violation_lines": lines[:3], "wall_s": round(time.time() - t0, 1),
+                "violation_lines": lines[:3], "caught_by": how, "wall_s": round(time.time() - t0, 1),
                 "summary": meta.get("summary", ""), "needs": meta.get("needs", ""),
                 "no_failing_input_found": any("no-failing-input-found" in l for l in lines),
             }
